@@ -428,6 +428,8 @@ def domain_mapping_profile(db: ProgramDB, outside_loop: bool = False):
 def variable_output_profile(db: ProgramDB, predicate: bool = True):
     m = db.method("Variable", "_process_output_and_update_values_")
     out_param = m.positional_params[1]
+    from ..facts import passthrough_helpers
+    helpers = passthrough_helpers(db.cls("Variable"))
     envs = [dict(invert=i, truthy=t, ywf=y) for i, t, y in itertools.product([False, True], repeat=3)]
 
     def make_init(env):
@@ -442,6 +444,8 @@ def variable_output_profile(db: ProgramDB, predicate: bool = True):
         def call_hook(c, st, ev):
             if isinstance(c.func, ast.Name) and c.func.id == out_param:
                 return tok      # calling the Predicate instance produces the predicate's output
+            if isinstance(c.func, ast.Attribute) and c.func.attr in helpers and c.args and isinstance(c.args[0], ast.Name) and c.args[0].id == out_param:
+                return tok      # ... also through the class's pass-through helper (call with the mode off)
             return None
         return dict(call_hook=call_hook)
     cfg, res = truth_profile(db, m, envs, make_init, make_hooks)
@@ -498,6 +502,8 @@ def rule_neg_honoured(db: ProgramDB) -> List[Instance]:
     operand = fn.positional_params[0]
     _, assign, _ = leaf_flag_transfer(db)
     cfg = CFG(fn)
+    se_ = db.cls("SymbolicExpression")
+    catch_all_hook = any("__getattr__" in c.methods and c.methods["__getattr__"].cls is c for c in [se_] + se_.all_subclasses())
 
     def flips(nd):
         return nd.kind == "stmt" and nd.ast is assign
@@ -511,9 +517,13 @@ def rule_neg_honoured(db: ProgramDB) -> List[Instance]:
         neg = False
         while isinstance(t, ast.UnaryOp) and isinstance(t.op, ast.Not):
             t, neg = t.operand, not neg
-        if isinstance(t, ast.Call) and dotted(t.func) == "hasattr" and len(t.args) == 2 and unparse(t.args[0]) == operand \
-                and isinstance(t.args[1], ast.Constant) and t.args[1].value == "_invert_":
-            return e.label == ("F" if neg else "T")
+        if isinstance(t, ast.Call) and dotted(t.func) == "hasattr" and len(t.args) == 2 and isinstance(t.args[1], ast.Constant) and t.args[1].value == "_invert_":
+            subject = unparse(t.args[0])
+            # asked of the class, or of the object when attribute access on expressions has no catch-all hook: with
+            # CanBehaveLikeAVariable.__getattr__ building an Attribute for any name in symbolic mode, hasattr(<expression>, …) is
+            # true for every variable-like operand
+            if subject in (f"type({operand})", f"{operand}.__class__") or (subject == operand and not catch_all_hook):
+                return e.label == ("F" if neg else "T")
         return False
     # a path to the flip that never establishes hasattr(operand, '_invert_') ...
     p = cfg.find_path(cfg.entry, flips, kinds=("n",), edge_ok=lambda e: e.kind == "n" and not has_flag_edge(e))
@@ -522,11 +532,13 @@ def rule_neg_honoured(db: ProgramDB) -> List[Instance]:
     guarded = p is None or not defaults and False
     if p is not None:
         # without an explicit test the arm is still safe when the flag is read without a default: an operand without it raises
-        guarded = not defaults and any(isinstance(x, ast.Attribute) and x.attr == "_invert_" and isinstance(x.ctx, ast.Load) for x in ast.walk(assign.value))
+        guarded = not defaults and not catch_all_hook and any(isinstance(x, ast.Attribute) and x.attr == "_invert_" and isinstance(x.ctx, ast.Load)
+                                                                 for x in ast.walk(assign.value))
     out.append(inst("NEG-HONOURED", HOLDS if guarded else VIOLATION, fn, "Not.leaf-arm[only operands that have the flag]",
                     "an operand without an _invert_ flag does not reach the flip (it is refused)" if guarded else
-                    f"`{unparse(assign)}` is reached by any operand and creates the flag on classes that never read it: not_(for_all(v, c)), or not_ "
-                    f"of a conclusion selector, returns the rows of the un-negated condition", line=assign.lineno))
+                    f"`{unparse(assign)}` is reached by operands whose class has no such flag (asking the expression itself with hasattr / reading the flag "
+                    f"does not tell: attribute access on an expression builds an Attribute in symbolic mode) and creates the flag where nothing reads it: "
+                    f"not_(for_all(v, c)), not_(concatenate(x)) or not_ of a conclusion selector keep the meaning of the un-negated operand", line=assign.lineno))
     # (b)
     se = db.cls("SymbolicExpression")
     declaring = []
